@@ -54,6 +54,8 @@ ASSUMPTIONS = [
     "sloppy base64 of a correct server signature (non-alphabet characters that b64decode discards) is a grey zone and not driven",
 ]
 DECIDING = {
+    "cryptosign_explicit_pubkey_cases": 5, "cryptosign_autofilled_pubkey_cases": 5,
+    "scram_welcome_without_challenge_checked": 10,
     "ref_vectors_checked": 40,
     "cra_signatures_compared": 50,
     "cra_alterations_checked": 2000,
@@ -693,6 +695,17 @@ def run_scram(case, R):
         if _welcome(a, ax) == "accept":
             viol("C19/scram/on_welcome/accepts-altered/%s" % kind, "on_welcome accepts a WELCOME whose server signature is %s" % kind)
     R.count("scram_welcome_forgeries_rejected", n_forged)
+    # ... and a WELCOME that was never preceded by a CHALLENGE cannot carry a correct server signature at all:
+    # a fresh authenticator (HELLO sent, i.e. authextra/nonce drawn, on_challenge never called) must deny every one
+    # (returning a string or raising both abort the session; only None lets it join)
+    fresh = auth.AuthScram(authid=case["authid"], password=case["password"])
+    fresh.authextra
+    for kind, ax in [("replayed-correct", {"scram_server_signature": b64s(server_sig)}), ("zeros", {"scram_server_signature": b64s(bytes(32))}),
+                     ("empty", {"scram_server_signature": ""}), ("missing", {}), ("authextra-none", None)]:
+        R.count("scram_welcome_without_challenge_checked")
+        if _welcome(fresh, ax) == "accept":
+            viol("C19/scram/on_welcome/accepts-without-challenge/%s" % kind,
+                 "on_welcome of an authenticator that never saw a CHALLENGE accepts a WELCOME (server signature %s)" % kind)
     v = _welcome(a, {"scram_server_signature": b64s(server_sig)})
     if v != "accept":
         viol(base + "/on_welcome/rejects-correct", "on_welcome -> %s for the correct server signature after rejected forgeries" % v)
@@ -912,6 +925,13 @@ def run_cryptosign(case, R):
         ch = Challenge(method, {"challenge": chal_.hex()})
         if via == "authenticator":
             ax = {"channel_binding": binding} if binding else {}
+            # configuration dimension: the application may announce its public key itself (authextra.pubkey) or let the
+            # authenticator fill it in; either way the channel binding it asked for must go into the signed message
+            if case.get("explicit_pubkey", bool(case["alt_seed"] & 1)):
+                ax["pubkey"] = CR.ed25519_public_from_seed(seed_).hex()
+                R.count("cryptosign_explicit_pubkey_cases")
+            else:
+                R.count("cryptosign_autofilled_pubkey_cases")
             a = auth.AuthCryptoSign(privkey=seed_.hex(), authid="client01", authextra=ax)
             # a transport that has a channel id although no binding was requested must not influence the signature
             chan = {"tls-unique": cid_} if cid_ is not None else ({"tls-unique": bytes(32)} if case.get("decoy_channel") else {})
@@ -942,7 +962,8 @@ def run_cryptosign(case, R):
         viol("%s/sign/raises/%s" % (base, _exc(e)), "signing raised %r" % (e,))
         return
     R.seen("nontrivial", h(["cryptosign", case["seed"], case["challenge"], case["channel_id"], case.get("via"), method]))
-    R.seen("configs", "cryptosign/%s/%s/%s" % (bname, case.get("via"), method))
+    R.seen("configs", "cryptosign/%s/%s/%s/%s" % (bname, case.get("via"), method,
+                                                   "pubkey-explicit" if case.get("explicit_pubkey", bool(case["alt_seed"] & 1)) else "pubkey-auto"))
     if pub_hex != pub.hex():
         viol("C19/cryptosign/pubkey-mismatch", "library public key %r, cryptography derives %s from the same seed" % (pub_hex, pub.hex()))
     sig = judge(reply, pub, want_msg, base)
